@@ -238,6 +238,78 @@ pub fn main(args: &Args) -> ! {
         }
         rep.part("mid_transfer_drop_masks", json!({"K": km, "first_datagram": 5, "planned": planned, "executed": res.len(), "capped": capped}));
     }
+    // E3c: an impatient driver. Besides servicing events, the driver polls both connections every
+    // `interval` of virtual time (a busy-polling event loop); rate-limited and window-limited senders
+    // must make the same progress as under the exact driver
+    {
+        let mut tasks = vec![];
+        for (name, rate) in [("pacing2k", Some(2_000u64)), ("pacing20k", Some(20_000)), ("cubic", None)] {
+            for interval_us in [50u64, 100, 1000] {
+                for wl in [Wl::W1, Wl::W11] {
+                    if !thorough && wl == Wl::W11 && interval_us != 100 {
+                        continue;
+                    }
+                    tasks.push((name, rate, interval_us, wl));
+                }
+            }
+        }
+        let planned = tasks.len();
+        let (res, capped) = e3(tasks, dl, |&(name, rate, interval_us, wl)| {
+            guarded(|| {
+                let mut cfg = crate::scen::cfg_by_name("default");
+                cfg.client.pacing_cap = rate;
+                cfg.client.name = name.into();
+                let mut p = std_pair_pre(base, &cfg, wl, ReadMode::default(), |w| w.keep_data = false);
+                let interval = Duration::from_micros(interval_us);
+                let hz = Duration::from_secs(40);
+                let mut polls = 0u64;
+                loop {
+                    if workload_done(&p) || p.w.t > hz || polls > 2_000_000 {
+                        break;
+                    }
+                    match p.w.next_event() {
+                        Some((at, _)) if at <= p.w.t + interval => {
+                            p.w.step();
+                        }
+                        _ => {
+                            p.w.t += interval;
+                            polls += 1;
+                            crate::scen::apply_op(&mut p, &crate::scen::Op::SpuriousSettle(crate::sim::CLIENT));
+                            crate::scen::apply_op(&mut p, &crate::scen::Op::SpuriousSettle(crate::sim::SERVER));
+                        }
+                    }
+                }
+                let mut v = vec![];
+                if !workload_done(&p) {
+                    let d = diagnose(&p);
+                    for (s, w) in completion(&p) {
+                        v.push((format!("stall-under-busy-polling:{s}"), format!("{w}; after {polls} extra polls, t={:?} {d}", p.w.t)));
+                    }
+                }
+                for (s, w) in integrity(&p) {
+                    v.push((format!("integrity:{s}"), w));
+                }
+                (p.w.trace_hash(), v, polls)
+            })
+        });
+        rep.exhaustive &= !capped;
+        let mut total_polls = 0u64;
+        for ((name, _, interval_us, wl), r) in &res {
+            rep.evaluations += 1;
+            let rj = json!({"check":"c02","kind":"busy","cfg":name,"interval_us":interval_us,"wl":format!("{wl:?}")});
+            match r {
+                Err(e) => rep.violation(Violation { signature: "panic".into(), what: format!("busy driver {name} every {interval_us} us {wl:?}: panic: {e}"), replay: rj }),
+                Ok((tr, v, polls)) => {
+                    rep.distinct.insert(*tr);
+                    total_polls += polls;
+                    for (sig, what) in v {
+                        rep.violation(Violation { signature: format!("{sig}:{name}"), what: format!("sender {name}, driver polling every {interval_us} us, {wl:?}: {what}"), replay: rj.clone() });
+                    }
+                }
+            }
+        }
+        rep.part("busy_polling_driver", json!({"planned": planned, "executed": res.len(), "extra_polls": total_polls, "capped": capped}));
+    }
     // E2: dup/delay/drop deviations
     let mut e2cfgs: Vec<usize> = if thorough { (0..cfgs.len()).collect() } else { vec![0, 4, 11, 13, 20].into_iter().filter(|i| *i < cfgs.len()).collect() };
     // un-paced sending: what the application writes leaves at once, so later operations (a deferred
